@@ -290,3 +290,147 @@ Proof.
     apply wsum_dim_ignores_masked, Hab.
   - unfold y_x_model. apply apply_same_shape_agree; assumption.
 Qed.
+
+(* ------------------------------------------------------------------ noise rules and padding *)
+
+Lemma apply_plain_spec : forall a vb op (rev : bool), wf a ->
+    bshape (if rev then shape vb else shape (value a)) (if rev then shape (value a) else shape vb)
+    = Some (shape (value a)) ->
+    exists r, apply_operation a (OT vb) op rev = Ok r /\ weight r = weight a /\
+      shape (value r) = shape (value a) /\
+      forall m, at_ (value r) m =
+                if rev then op (at_ vb (bidx (shape vb) m)) (at_ (value a) (bidx (shape (value a)) m))
+                else op (at_ (value a) (bidx (shape (value a)) m)) (at_ vb (bidx (shape vb) m)).
+Proof.
+  intros a vb op rev W B. unfold apply_operation, tzip2. unfold wf in W.
+  destruct rev; rewrite B; cbn [shape]; destruct (weight a) as [wa|] eqn:E.
+  all: try (unfold expand_weight; rewrite W, shape_eqb_refl; cbn [bind];
+       unfold mk_weightedN; cbn [shape]; rewrite W, shape_eqb_refl).
+  all: eexists; (split; [reflexivity|]); simpl; auto.
+Qed.
+
+Lemma noise_summed_direct : forall d y model, wf y -> shape model = shape (value y) ->
+    ragree teq (noise_summed d y model) (sum_dim azero d (OW (nll_full f_tot y model))).
+Proof.
+  intros d y model W Sm. unfold noise_summed, y_x_model.
+  assert (B1 : bshape (shape (value y)) (shape model) = Some (shape (value y))) by (rewrite Sm; apply bshape_refl).
+  destruct (apply_plain_spec y model amul false W B1) as (a & Ea & Wa & Sa & Va).
+  rewrite Ea. cbn [bind].
+  assert (WA : wf a) by (unfold wf in *; rewrite Wa, Sa; exact W).
+  destruct (apply_plain_spec a (scalar0 (Fin (-2 # 1)%Q)) amul true WA eq_refl) as (b & Eb & Wb & Sb & Vb).
+  rewrite Eb. cbn [bind].
+  assert (WB : wf b) by (unfold wf in *; rewrite Wb, Sb; exact WA).
+  assert (B3 : bshape (shape (value b)) (shape (model_x_model model)) = Some (shape (value b))).
+  { simpl. rewrite Sm, Sb, Sa. apply bshape_refl. }
+  destruct (apply_plain_spec b (model_x_model model) aadd false WB B3) as (c & Ec & Wc & Sc & Vc).
+  rewrite Ec. cbn [bind].
+  apply sum_dim_ignores_masked. simpl.
+  assert (WC : wf c) by (unfold wf in *; rewrite Wc, Sc; exact WB).
+  unfold wagree. split; [exact WC|]. split; [exact W|].
+  split; [simpl; now rewrite Sc, Sb, Sa|].
+  split.
+  { rewrite Wc, Wb, Wa. simpl. destruct (weight y); simpl; [apply teq_refl | exact I]. }
+  intros m Hm _. rewrite Sc, Sb, Sa in Hm.
+  pose proof (bidx_id _ _ Hm) as Ei.
+  rewrite Vc, Vb, Va. simpl. rewrite Sb, Sa, Sm, !Ei. reflexivity.
+Qed.
+
+Lemma sqr_direct : forall y model, wf y -> sqr y = Ok (nll_full f_sq y model).
+Proof.
+  intros y model W. unfold sqr, wmap, valued, mk_weightedN, nll_full, f_sq, filled, wf in *. simpl.
+  destruct (weight y) as [w|]; [|reflexivity]. simpl. now rewrite W, shape_eqb_refl.
+Qed.
+
+Lemma pad_shape_length : forall p k rs, p < length rs -> length (pad_shape p k rs) = length rs.
+Proof.
+  intros p k rs H. unfold pad_shape. rewrite app_length, firstn_length. cbn [length]. rewrite skipn_length. lia.
+Qed.
+
+Lemma ragree_trans : forall A (P : A -> A -> Prop), (forall a b c, P a b -> P b c -> P a c) ->
+    forall r1 r2 r3, ragree P r1 r2 -> ragree P r2 r3 -> ragree P r1 r3.
+Proof. intros A P T [a|e] [b|e'] [c|e'']; simpl; intros; try contradiction; eauto; congruence. Qed.
+
+Lemma ragree_teq_sym : forall A (r1 r2 : res (tensor A)), ragree teq r1 r2 -> ragree teq r2 r1.
+Proof. intros A [a|e] [b|e']; simpl; intros; try contradiction; auto using teq_sym. Qed.
+
+Lemma pair_teq_trans : forall A B (p q r : tensor A * tensor B), pair_teq p q -> pair_teq q r -> pair_teq p r.
+Proof. intros A B p q r [H1 H2] [H3 H4]. split; eapply teq_trans; eassumption. Qed.
+
+(** weighted sums through the argument handling of wsum_dim / sum_dim: padding along a summed axis is invisible *)
+Lemma sums_padding : forall fill d R p k g t w, wf t -> weight t = Some w -> p < ndim t ->
+    bind (get_dim (ndim t) d) (torch_sum_mask (ndim t)) = Ok R -> nth p R false = true ->
+    ragree pair_teq (wsum_dim fill d (wpad p k g t)) (wsum_dim fill d t) /\
+    ragree teq (sum_dim fill d (OW (wpad p k g t))) (sum_dim fill d (OW t)).
+Proof.
+  intros fill d R p k g t w W E Hp HR Hn.
+  assert (Hd : ndim (wpad p k g t) = ndim t) by (unfold ndim; simpl; now apply pad_shape_length).
+  pose proof (wsum_mask_padding fill R p k g t w W E Hp Hn) as HP.
+  unfold wsum_dim, sum_dim, wsum_only, wsum. rewrite Hd. simpl weight. rewrite E.
+  destruct (get_dim (ndim t) d) as [dim|e]; cbn [bind] in HR; [|discriminate]. cbn [bind]. rewrite HR. cbn [bind].
+  split; [exact HP | exact (proj1 HP)].
+Qed.
+
+Lemma nll_full_pad : forall f y w model p k gy gm, wf y -> weight y = Some w -> shape model = shape (value y) ->
+    wagree (nll_full f (wpad p k gy y) (tpad p k gm model))
+           (wpad p k (fun m => f m (gy m) (gm m)) (nll_full f y model)).
+Proof.
+  intros f y w model p k gy gm W E Sm. unfold wf in W. rewrite E in W.
+  unfold wagree, wf, observed, nll_full, wpad; simpl. rewrite E. simpl.
+  repeat split; auto; try (now rewrite W).
+  intros m Hm Ho. rewrite Sm.
+  destruct (Nat.ltb (nth p m 0) (nth p (shape (value y)) 0)); reflexivity.
+Qed.
+
+Lemma nll_sums_padding : forall f d R y w model p k gy gm,
+    wf y -> weight y = Some w -> shape model = shape (value y) -> p < length (shape (value y)) ->
+    bind (get_dim (length (shape (value y))) d) (torch_sum_mask (length (shape (value y)))) = Ok R ->
+    nth p R false = true ->
+    ragree pair_teq (wsum_dim azero d (nll_full f (wpad p k gy y) (tpad p k gm model)))
+                    (wsum_dim azero d (nll_full f y model)) /\
+    ragree teq (sum_dim azero d (OW (nll_full f (wpad p k gy y) (tpad p k gm model))))
+               (sum_dim azero d (OW (nll_full f y model))).
+Proof.
+  intros f d R y w model p k gy gm W E Sm Hp HR Hn.
+  pose proof (nll_full_pad f y w model p k gy gm W E Sm) as HA.
+  set (n0 := nll_full f y model) in *.
+  assert (Wn : wf n0) by (unfold n0, nll_full, wf; simpl; exact W).
+  assert (En : weight n0 = Some w) by (unfold n0, nll_full; simpl; exact E).
+  destruct (sums_padding azero d R p k (fun m => f m (gy m) (gm m)) n0 w Wn En Hp HR Hn) as [P1 P2].
+  split.
+  - eapply ragree_trans; [apply pair_teq_trans | apply wsum_dim_ignores_masked, HA | exact P1].
+  - eapply ragree_trans; [apply teq_trans | | exact P2].
+    apply (sum_dim_ignores_masked azero d (OW _) (OW _)). exact HA.
+Qed.
+
+(** C06, noise and padding: k more visits with weight 0 — ANY y values and ANY model values in them — change neither
+    update rule's variance *)
+Theorem noise_padding : forall y w model k gy gm,
+    wf y -> weight y = Some w -> length (shape (value y)) = 3 -> shape model = shape (value y) ->
+    ragree teq (noise_var_scalar (wpad VISIT_POS k gy y) (tpad VISIT_POS k gm model)) (noise_var_scalar y model) /\
+    ragree teq (noise_var_diagonal (wpad VISIT_POS k gy y) (tpad VISIT_POS k gm model)) (noise_var_diagonal y model).
+Proof.
+  intros y w model k gy gm W E L3 Sm.
+  set (yp := wpad VISIT_POS k gy y). set (mp := tpad VISIT_POS k gm model).
+  assert (Wp : wf yp).
+  { unfold yp, wf, wpad. simpl. rewrite E. simpl. unfold wf in W. rewrite E in W. now rewrite W. }
+  assert (Sp : shape mp = shape (value yp)) by (unfold mp, yp; simpl; now rewrite Sm).
+  assert (Hp : VISIT_POS < length (shape (value y))) by (unfold VISIT_POS; lia).
+  assert (main : forall d R,
+             bind (get_dim (length (shape (value y))) d) (torch_sum_mask (length (shape (value y)))) = Ok R ->
+             nth VISIT_POS R false = true ->
+             ragree teq (bind (bind (sqr yp) (fun y2 => wsum_dim azero d y2))
+                              (fun p => bind (noise_summed d yp mp) (noise_var_of p)))
+                        (bind (bind (sqr y) (fun y2 => wsum_dim azero d y2))
+                              (fun p => bind (noise_summed d y model) (noise_var_of p)))).
+  { intros d R HR Hn.
+    rewrite (sqr_direct yp mp Wp), (sqr_direct y model W). cbn [bind].
+    eapply bind_ragree.
+    { exact (proj1 (nll_sums_padding f_sq d R y w model VISIT_POS k gy gm W E Sm Hp HR Hn)). }
+    intros p p' Hpp. eapply bind_ragree with (P := teq); [|intros s s' Hs; now apply noise_var_of_agree].
+    eapply ragree_trans; [apply teq_trans | apply noise_summed_direct; assumption |].
+    eapply ragree_trans; [apply teq_trans | | apply ragree_teq_sym, noise_summed_direct; assumption].
+    exact (proj2 (nll_sums_padding f_tot d R y w model VISIT_POS k gy gm W E Sm Hp HR Hn)). }
+  split.
+  - apply (main DimDefault [true; true; true]); [rewrite L3|]; reflexivity.
+  - apply (main (ButDim [LVL_FT]) [false; true; true]); [rewrite L3|]; reflexivity.
+Qed.
